@@ -28,7 +28,7 @@ require (
 )
 
 require (
-	github.com/klauspost/cpuid v1.2.3 // indirect
+	github.com/klauspost/cpuid v1.2.3
 	github.com/satori/go.uuid v1.2.0
 )
 
